@@ -25,7 +25,8 @@ import (
 // DeliverNodeData from their own goroutines; the blocking entries are FetchVldTrie (exported) and,
 // through the add-only hooks of you/downloader/verif_c19.go, the state / staking variants.
 // No verdict depends on the RTT/TTL timers (a minute by default): peers that "never answer"
-// leave through UnregisterPeer, and whenever no peer is left an honest one joins.
+// leave through UnregisterPeer, whenever no peer is left an honest one joins, and a stalled sync
+// gets a fresh honest peer every 1.5 s.
 
 type dlChain struct{ db youdb.Database }
 
@@ -325,7 +326,7 @@ func (p *dlPeer) RequestNodeData(kind types.TrieKind, hashes []common.Hash) erro
 // watchdog bounds one production sync in wall time (normal ones take milliseconds). It never
 // produces a verdict: a firing makes the case inconclusive; after three firings in one child the
 // remaining cases are not attempted (inconclusive as well) so that a hanging build fails fast.
-const watchdog = 45 * time.Second
+const watchdog = 90 * time.Second
 
 var watchdogFired int
 
@@ -337,13 +338,32 @@ type dlOutcome struct {
 
 // runDownload runs one production sync of t into dst.
 func runDownload(c *kit.Ctx, r *rand.Rand, w *world, t *target, kind types.TrieKind, dst *recDB, profiles []peerProfile, cancelAfter, joinAfter int) (out dlOutcome, err error) {
-	e := &dlEnv{c: c, w: w, live: map[string]bool{}, cancelAfter: cancelAfter, joinAfter: joinAfter, honestAfter: 12 + len(t.order)/2,
+	e := &dlEnv{c: c, w: w, live: map[string]bool{}, cancelAfter: cancelAfter, joinAfter: joinAfter, honestAfter: imin(40, 12+len(t.order)/2),
 		seed: rand.New(rand.NewSource(r.Int63())), counts: map[string]int{}}
 	e.d = downloader.New(dlChain{dst}, nil, dst, e.unregister, new(event.TypeMux))
 	e.d.VerifBeginSession()
 	for _, p := range profiles {
 		e.addPeer(p)
 	}
+	// The production loop only re-assigns tasks when a response, a peer drop or a NEW peer arrives:
+	// when every remaining peer has already failed the queued tasks it waits for peer churn (that
+	// is liveness, not this property). The harness supplies the churn: while a sync is running an
+	// honest peer joins every 1.5 s (normal syncs finish within milliseconds and never see one).
+	stop := make(chan struct{})
+	defer close(stop)
+	go func() {
+		tk := time.NewTicker(1500 * time.Millisecond)
+		defer tk.Stop()
+		for i := 0; ; i++ {
+			select {
+			case <-stop:
+				return
+			case <-tk.C:
+				e.addPeer(honestProfile(fmt.Sprintf("churn%d", i)))
+				e.count("dl_churn_peers_joined", 1)
+			}
+		}
+	}()
 	done := make(chan error, 1)
 	go func() {
 		switch {
@@ -360,6 +380,15 @@ func runDownload(c *kit.Ctx, r *rand.Rand, w *world, t *target, kind types.TrieK
 	case <-time.After(watchdog): // watchdog only: a firing makes the case inconclusive
 		out.TimedOut = true
 		watchdogFired++
+		buf := make([]byte, 1<<20)
+		buf = buf[:runtime.Stack(buf, true)]
+		if len(buf) > 60000 {
+			buf = buf[:60000]
+		}
+		e.mu.Lock()
+		nreq := e.reqs
+		e.mu.Unlock()
+		c.Note(fmt.Sprintf("watchdog: production sync of %s (%d blobs) still running after %v; requests so far %d; goroutines:\n%s", t.Name, len(t.order), watchdog, nreq, buf))
 		e.d.Cancel()
 		err = <-done
 	}
